@@ -217,77 +217,136 @@ def path_conditions(node, kill_names=None, extra_kill_calls=()):
             names = names | set(kill_names)
         killed = False
         for k in _killers(func, names):
-            if contains(c.test, k):
-                continue    # walrus inside the test itself
-            between = end_pos(c.test) <= pos(k) < pos(node)
-            if between and c.kind in ('if', 'while', 'guard', 'assert'):
-                # an assignment in a *sibling* branch that cannot reach the node does not kill
-                if not _may_reach(k, node):
-                    continue
+            if _kills(c, k, node, func):
                 killed = True
-                break
-            loops_node = _enclosing_loops(node, func)
-            for L in loops_node:
-                if contains(L, k) and not contains(L, c.test):
-                    killed = True
-                    break
-            if killed:
                 break
         if not killed:
             kept.append(c)
     return kept
 
 
-def _may_reach(a, b):
-    """Can control flow from statement containing a reach b (structured approximation)?
+def exits(stmts):
+    """How control can leave a statement list: subset of {fall, return, raise, continue, break}."""
+    out = set()
+    for s in stmts:
+        kinds = _exits_stmt(s)
+        out |= kinds - {'fall'}
+        if 'fall' not in kinds:
+            return out
+    out.add('fall')
+    return out
 
-    False when a and b sit in different arms of the same if/try, or when the block of a
-    always leaves before reaching b's block.
-    """
-    sa = a
-    chain_a = []
-    while sa is not None:
-        chain_a.append(sa)
-        sa = getattr(sa, '_parent', None)
-    ids_a = {id(x): x for x in chain_a}
-    sb = b
-    prev_b = None
-    while sb is not None and id(sb) not in ids_a:
-        prev_b = sb
-        sb = getattr(sb, '_parent', None)
-    if sb is None:
+
+def _exits_stmt(s):
+    if isinstance(s, ast.Return):
+        return {'return'}
+    if isinstance(s, ast.Raise):
+        return {'raise'}
+    if isinstance(s, ast.Continue):
+        return {'continue'}
+    if isinstance(s, ast.Break):
+        return {'break'}
+    if isinstance(s, ast.If):
+        return exits(s.body) | exits(s.orelse)
+    if isinstance(s, LOOPS):
+        inner = exits(s.body)
+        return {'fall'} | (inner & {'return', 'raise'}) | (exits(s.orelse) - {'fall'})
+    if isinstance(s, (ast.With, ast.AsyncWith)):
+        return exits(s.body)
+    if isinstance(s, ast.Try):
+        kinds = exits(s.body)
+        for h in s.handlers:
+            kinds |= exits(h.body)
+        if s.orelse:
+            kinds |= exits(s.orelse)
+        if s.finalbody:
+            fin = exits(s.finalbody)
+            if 'fall' not in fin:
+                return fin
+            kinds |= fin - {'fall'}
+        return kinds
+    return {'fall'}
+
+
+def _innermost_loop(node, stop=None):
+    p = getattr(node, '_parent', None)
+    while p is not None and p is not stop:
+        if isinstance(p, LOOPS):
+            return p
+        if isinstance(p, FUNCS):
+            return None
+        p = getattr(p, '_parent', None)
+    return None
+
+
+def _kills(c, k, node, func):
+    """May the rebinding k invalidate condition c before `node` is evaluated?"""
+    if contains(c.test, k):
+        return False
+    origin = c.origin
+    textual = end_pos(c.test) <= pos(k) < pos(node)
+    if not textual:
+        # loop-carried: k runs in a loop that holds the node but not the test
+        for L in _enclosing_loops(node, func):
+            if contains(L, k) and not contains(L, c.test):
+                return True
+        return False
+    if c.kind in ('boolop', 'ifexp', 'comp'):
+        # expression-level condition: only a walrus in between could rebind
         return True
-    common = sb
-    # child of common on a's side
-    idx = chain_a.index(common)
-    prev_a = chain_a[idx - 1] if idx > 0 else None
-    if isinstance(common, ast.If) and prev_a is not None and prev_b is not None:
-        in_body_a = any(prev_a is s for s in common.body)
-        in_body_b = any(prev_b is s for s in common.body)
-        in_else_a = any(prev_a is s for s in common.orelse)
-        in_else_b = any(prev_b is s for s in common.orelse)
-        if (in_body_a and in_else_b) or (in_else_a and in_body_b):
-            return False
-    # a's own block terminates after a (e.g. `x = 1; continue`) and b is outside that block
-    if prev_a is not None and isinstance(prev_a, ast.stmt):
-        node = a if isinstance(a, ast.stmt) else stmt_of(a)
-        cur = node
-        while cur is not None and cur is not common:
-            blk = _block_of(cur)
-            if blk:
-                _, _, lst, i = blk
-                if terminates(lst[i:]) and not contains(cur._parent, b):
-                    # leaves through break/continue/return/raise; for break/continue the
-                    # loop may still re-enter b: only accept when no loop encloses both
-                    if leaves_function(lst[i:]):
-                        return False
-                    loops = [L for L in _enclosing_loops(cur, None) if contains(L, b)]
-                    if not loops:
-                        return False
-                    # continue/break inside a loop that also holds b: next iteration
-                    # re-evaluates the guard only if the guard is inside that loop too
-                    return True
+    # statement-level: follow control after k
+    kstmt = stmt_of(k)
+    cur = kstmt
+    while cur is not None:
+        blk = _block_of(cur)
+        if blk is None:
             cur = getattr(cur, '_parent', None)
+            while cur is not None and not isinstance(cur, ast.stmt):
+                cur = getattr(cur, '_parent', None)
+            continue
+        parent, _, lst, i = blk
+        # does this block also hold (an ancestor of) the node after cur?
+        for j in range(i + 1, len(lst)):
+            if contains(lst[j], node):
+                kinds = exits(lst[i + 1:j])
+                if 'fall' in kinds:
+                    return True
+                return not _all_safe(kinds, cur, c, node)
+        kinds = exits(lst[i + 1:])
+        non_fall = kinds - {'fall'}
+        if non_fall and not _all_safe(non_fall, cur, c, node):
+            return True
+        if 'fall' not in kinds:
+            return False
+        # falls out of this block
+        if isinstance(parent, LOOPS) and any(cur is s_ for s_ in parent.body):
+            # end of a loop body -> back to the loop head
+            if contains(parent, node):
+                if parent is origin or contains(parent, origin):
+                    return False
+                return True
+        if isinstance(parent, FUNCS) or parent is func:
+            return False
+        cur = parent if isinstance(parent, ast.stmt) else stmt_of(parent)
+    return False
+
+
+def _all_safe(kinds, cur, c, node):
+    origin = c.origin
+    for kind in kinds:
+        if kind in ('return', 'raise'):
+            continue
+        L = _innermost_loop(cur)
+        if L is None:
+            continue
+        if kind == 'continue':
+            if L is origin or contains(L, origin):
+                continue
+            return False
+        if kind == 'break':
+            if contains(L, node) and (L is origin or contains(L, origin)):
+                continue
+            return False
     return True
 
 
